@@ -587,13 +587,16 @@ func (r *runner) runFlavour(c *caseJ) {
 	pm := c.Msg.Build(mat)
 	stCoq := c.State.Coq(mat)
 	dump0 := w.Dump()
-	allAccept, anyPanic := true, false
+	allAccept, anyPanic, flavourAccept := true, false, true
 	for _, vs := range which(c.Flavour, c.Msg) {
 		d := n.ValidateDirect(vs, pm)
 		id := run.NextID()
 		run.AddCase(id, vh.CApp("CDirect", vh.CN(id), vs, stCoq, c.Msg.Coq(mat), d.Coq(), vh.CNat(d.Exec.Stmts)), c, c.key()+"/"+vs, d.Verdict == "accept")
 		if d.Verdict != "accept" {
 			allAccept = false
+			if !strings.HasPrefix(vs, "VsCore") {
+				flavourAccept = false
+			}
 		}
 		if d.Verdict == "panic" || d.Verdict == "timeout" {
 			anyPanic = true
@@ -633,6 +636,12 @@ func (r *runner) runFlavour(c *caseJ) {
 			if ok, i := g.ElementsValid(mat, c.State, c.Msg); !ok {
 				r.violate(c, "C04:"+c.Flavour+":"+c.Msg.Type+":accepted-although-an-element-is-invalid",
 					fmt.Sprintf("accepted although element %d is not the valid %s for its identity (real shcrypto verification of that element alone fails)", i, c.Msg.Type), res, "reject")
+			}
+		}
+		if res != "accept" && flavourAccept {
+			// the flavour's own validator has no objection: the core rule decides
+			if wf, _ := g.WfCore(mat, c.State, c.Msg); wf {
+				r.violate(c, "C04:"+c.Flavour+":"+c.Msg.Type+":false-reject", "a well-formed, valid message was not accepted", res, "accept")
 			}
 		}
 		// reject dominates: accepted iff every validator of the topic accepts
@@ -829,6 +838,7 @@ func (r *runner) forced(emit func(*caseJ)) {
 			emit(&caseJ{Kind: "env", Flavour: "core", State: sts[0], Msg: base(), Env: e, Origin: "forced:envelope"})
 		}
 	}
+	r.forcedNear(emit)
 	r.forcedFlavour(emit)
 	r.forcedHist(emit)
 	r.forcedProducer(emit)
@@ -990,6 +1000,74 @@ func (r *runner) forcedFlavour(emit func(*caseJ)) {
 			}
 			for _, e := range []envSpec{{MsgTopic: "decryptionTrigger"}, {Version: "0.0.2"}, {Payload: "foreign"}, {RegTopic: "EonPublicKey"}} {
 				emit(&caseJ{Kind: "flavour", Flavour: fl, State: sts[0], Msg: flavourMsg(fl, typ), Env: e, Origin: "forced:" + fl + ":envelope"})
+			}
+		}
+	}
+}
+
+// nearFamilies: groups of identities that are near each other - same length, same first and
+// last bytes, different middle; one byte apart; a leading zero byte more; short ones. Anything
+// keyed by an abbreviation or a truncation of the identity confuses the members of a group.
+// Each group is listed in ascending byte order.
+func nearFamilies(tag string) [][]string {
+	mid := func(a, b, c string) string { return tag + a + strings.Repeat(b, 27) + c + "1112" }
+	return [][]string{
+		{mid("c6", "00", "00"), mid("c6", "00", "01"), mid("c6", "ff", "ff")},
+		{"00" + mid("c7", "33", "33"), mid("c7", "33", "33"), mid("c7", "33", "33") + "00"},
+		{tag + "b200c3d4", tag + "b201c3d4", tag + "b2ffc3d4"},
+		{tag + "b2c3", tag + "b2c3d4", tag + "b2c3d400"},
+		{tag, tag + "00", tag + "0000"},
+	}
+}
+
+// forcedNear: valid messages for near identities validated one after the other on the same
+// handler instance (and in the same process: caches outlive a case), ascending for one set of
+// families and descending for another; then one message naming several of them.
+func (r *runner) forcedNear(emit func(*caseJ)) {
+	st := states()[0]
+	mk := func(typ string, ids ...string) *g.Msg {
+		m := baseShares()
+		if typ == "keys" {
+			m = baseKeys()
+		}
+		m.Items = nil
+		for _, id := range ids {
+			m.Items = append(m.Items, g.Item{Ident: id, Val: goodVal(m, id)})
+		}
+		return m
+	}
+	for _, typ := range []string{"shares", "keys"} {
+		for dir, tag := range []string{"d1", "e2"} {
+			for fi, fam := range nearFamilies(tag) {
+				order := append([]string(nil), fam...)
+				if dir == 1 {
+					for i, j := 0, len(order)-1; i < j; i, j = i+1, j-1 {
+						order[i], order[j] = order[j], order[i]
+					}
+				}
+				for _, id := range order {
+					emit(&caseJ{Kind: "core", Flavour: "core", State: st, Msg: mk(typ, id), Origin: fmt.Sprintf("forced:near:%s:family-%d:single", []string{"ascending", "descending"}[dir], fi)})
+				}
+				emit(&caseJ{Kind: "core", Flavour: "core", State: st, Msg: mk(typ, fam...), Origin: fmt.Sprintf("forced:near:family-%d:together", fi)})
+			}
+		}
+	}
+	// Gnosis / service nodes: the first family (Gnosis identities are 52 bytes: 32 + 20 of the sender)
+	for _, fl := range []string{"gnosis", "service"} {
+		for _, typ := range []string{"shares", "keys"} {
+			fam := nearFamilies("f3")[0]
+			if fl == "gnosis" {
+				for i := range fam {
+					fam[i] = wide(fam[i])
+				}
+			}
+			for _, ids := range [][]string{{fam[0]}, {fam[1]}, {fam[2]}, fam} {
+				m := flavourMsg(fl, typ)
+				m.Items = nil
+				for _, id := range ids {
+					m.Items = append(m.Items, g.Item{Ident: id, Val: goodVal(m, id)})
+				}
+				emit(&caseJ{Kind: "flavour", Flavour: fl, State: st, Msg: m, Origin: "forced:near:" + fl})
 			}
 		}
 	}
